@@ -17,6 +17,7 @@
 #include <netinet/in.h>
 #include <arpa/inet.h>
 #include <poll.h>
+#include <fcntl.h>
 #include <signal.h>
 
 using namespace asl;
@@ -204,7 +205,7 @@ static void mode_hist(vf::Ctx& c)
 	// two endpoints: the server listens on a TCP port and on a Unix path; in half of these histories only one of them gets traffic
 	bool twoEp = !twoStep && !longServe && !fd0 && c.idx % 16 == 13;
 	bool twoEpOnlyTcp = twoEp && c.rng.chance(0.5);
-	if (twoEp) { unixSock = false; if (N == 0) N = 3; }
+	if (twoEp) { unixSock = false; N = c.rng.range(2, 8); }   // few clients: the bounded-progress clause applies
 	// signals: the thread running the accept loop (blocking start() in an application thread) handles two signals while idle
 	bool sig = !twoStep && !longServe && !fd0 && !twoEp && c.idx % 16 == 11;
 	if (sig) { blockingStart = true; stopWhen = 2; if (N > 20) N = 20; }
@@ -227,7 +228,10 @@ static void mode_hist(vf::Ctx& c)
 	if (longServe) srv->serveDelayUs = c.rng.range(5500000, 7000000);
 	srv->setSequential(sequential);
 	srv->keepCopies = keepCopies;
+	// with two endpoints, in half of the histories a descriptor is released between the two binds, so that the endpoint bound later has the smaller number
+	int holeFd = twoEp && c.rng.chance(0.5) ? open("/dev/null", O_RDONLY) : -1;
 	bool bound = unixSock ? srv->bindPath(path.c_str()) : srv->bind("127.0.0.1", 0);
+	if (holeFd >= 0) { close(holeFd); c.count("two_endpoints_second_has_smaller_descriptor"); }
 	if (bound && twoEp) bound = srv->bindPath(path.c_str());
 	if (!bound) { delete srv; g_log = 0; sched::off(); c.inconclusive("bind-failed"); return; }
 	int port = unixSock ? 0 : srv->port();
@@ -241,6 +245,7 @@ static void mode_hist(vf::Ctx& c)
 			int beh = fd0 && launched == 0 ? 0 : c.rng.chance(0.75) ? 0 : c.rng.range(1, 2);
 			int delay = fd0 && launched == 0 ? 0 : c.rng.chance(0.5) ? 0 : c.rng.range(0, 30000);
 			bool viaUnix = twoEp ? (!twoEpOnlyTcp && c.rng.chance(0.5)) : unixSock;
+			if (twoEp && twoEpOnlyTcp && (c.idx & 16)) viaUnix = false;
 			clients.emplace_back(clientThread, viaUnix, port, path, tok, beh, delay);
 			if ((int)clients.size() >= nClientThreadsMax && c.rng.chance(0.3)) { struct timespec ts = {0, 1000000}; nanosleep(&ts, 0); }
 		}
